@@ -336,7 +336,8 @@ theorem c01_v2txn_conserves {T} {ms ms' : Mid} {t : Txn2} {mw : Nat} {R : List (
     Inv T ms' ∧ Fresh T ms' R ∧ ms'.base = ms.base ∧
     Phi ms' + t.fee + t.forfeits = Phi ms + t.claims ms.pool ∧ sfTot ms' = sfTot ms ∧ ms.pool ≤ ms'.pool ∧
     (CsOk ms → CsOk ms' ∧ Psi ms' + 10000 * t.claims ms.pool ≤ Psi ms + (ms'.pool - ms.pool) * sfTot ms) ∧
-    ms'.pool = ms.pool + t.taxes :=
+    ms'.pool = ms.pool + t.taxes ∧
+    (1 ≤ ms.base.P.maturityDelay → scW (wImm ms.base.child) ms + t.claims ms.pool ≤ scW (wImm ms.base.child) ms') :=
   v2txn_conserves hc hfix hI hF hnw hsfb hv ha
 
 /-- One accepted v1 transaction: potential + fees = potential before + claims; siafunds unchanged. -/
@@ -349,7 +350,8 @@ theorem c01_v1txn_conserves {T} {ms ms' : Mid} {t : Txn1} {pid : Id} {mw : Nat} 
     Inv T ms' ∧ Fresh T ms' R ∧ ms'.base = ms.base ∧
     Phi ms' + t.fees.sum = Phi ms + t.claims ms ∧ sfTot ms' = sfTot ms ∧ ms.pool ≤ ms'.pool ∧
     (CsOk ms → CsOk ms' ∧ Psi ms' + 10000 * t.claims ms ≤ Psi ms + (ms'.pool - ms.pool) * sfTot ms) ∧
-    ms'.pool = ms.pool + t.taxes ms.base :=
+    ms'.pool = ms.pool + t.taxes ms.base ∧
+    (1 ≤ ms.base.P.maturityDelay → scW (wImm ms.base.child) ms + t.claims ms ≤ scW (wImm ms.base.child) ms') :=
   v1txn_conserves hc hI hsupp hF hlen hnw hsfb hv ha
 
 /-! ## 5. Non-vacuity: a concrete two-block chain satisfying every hypothesis -/
